@@ -47,20 +47,21 @@ Fixpoint over_group (g : str) (seen rest fe : list entry) : list entry :=
       over_group g (e :: seen) rest' fe'
   end.
 
+Definition group_in (b : list entry) (g : str) : bool :=
+  existsb (fun x => str_eqb (e_group x) g) b.
+
 (* the i-loop: copy the base, and at the end of every run apply the override *)
 Fixpoint merge_runs (opre orest : list entry) (prev : option str) (b fe : list entry) : list entry :=
   match b with
   | [] => match prev with Some g => over_group g opre orest fe | None => fe end
   | e :: b' =>
       let fe1 := match prev with
-                 | Some g => if str_eqb g (e_group e) then fe else over_group g opre orest fe
+                 | Some g => if str_eqb g (e_group e) || group_in b g then fe   (* not the last run of g *)
+                             else over_group g opre orest fe
                  | None => fe
                  end in
       merge_runs opre orest (Some (e_group e)) b' (fe1 ++ [cpy e])
   end.
-
-Definition group_in (b : list entry) (g : str) : bool :=
-  existsb (fun x => str_eqb (e_group x) g) b.
 
 (* add_new_groups *)
 Fixpoint add_new (b : list entry) (leading : bool) (o fe : list entry) : list entry :=
